@@ -60,8 +60,44 @@ def natural_join(case, m):
     return res
 
 
+def oracle_down(rec):
+    """down-first / late-fact cases (connective with a world default that says something): at the moment of the downward call
+    every tuple in the natural join of the asserted operand facts must be evaluated -- its operator row being the asserted one
+    or the world default -- and push at least what the inverse prescribes onto each operand row it depends on"""
+    case, m = rec["prog"], rec["meta"]
+    if m["errors"]:
+        return {"exception": m["errors"]}
+    tabs = [(l, o) for l, o in zip(rec["lines"], rec["impl"]) if l.startswith("ftab ")]
+    before, after = fol.parse_tab(tabs[-2][1]), fol.parse_tab(tabs[-1][1])
+    conn = case["conn"]
+    w = [parse_q(x) for x in m["weights"]]
+    b, alpha = parse_q(m["bias"]), parse_q(m["alpha"])
+    kind = m["kind"]
+    W = {"axiom": (Fr(1), Fr(1)), "closed": (Fr(0), Fr(0))}[case["kb"]["nodes"][0]["world"]]
+    allf = dict(case, facts=list(case["facts"]) + list(case.get("late", [])))
+    for sigma, _ in natural_join(allf, m):
+        g = fol.gtxt(sigma)
+        rows = [before[oid].get(fol.gtxt(tuple(sigma[s] for s in om))) for oid, om in zip(m["operand_ids"], m["operand_map"])]
+        ob = before.get(conn, {}).get(g, W)
+        if any(r is None for r in rows) or any(r[0] > r[1] for r in rows[:2]) or ob[0] > ob[1]:
+            continue
+        pl, pu = exact.act_down(kind, w, b, alpha, ob[0], ob[1], [r[0] for r in rows], [r[1] for r in rows])
+        for k, (oid, om) in enumerate(zip(m["operand_ids"], m["operand_map"])):
+            og = fol.gtxt(tuple(sigma[s] for s in om))
+            exp = exact.agg(rows[k], (pl[k], pu[k]))
+            got = after[oid].get(og)
+            if got is None or got[0] < exp[0] or got[1] > exp[1]:
+                return {"problem": "a downward step did not evaluate a grounding whose operand facts are all asserted: an operand row is "
+                                   "looser than the inverse prescribes for the operator's row (its data or world default)",
+                        "variant": case["variant"], "operator_grounding": g, "operator_row": list(map(str, ob)), "operand": oid,
+                        "grounding": og, "at_least": list(map(str, exp)), "got": None if got is None else list(map(str, got))}
+    return None
+
+
 def oracle(rec):
     case, m = rec["prog"], rec["meta"]
+    if case.get("variant"):
+        return oracle_down(rec)
     if m["errors"]:
         return {"exception": m["errors"]}
     tabs = [(l, o) for l, o in zip(rec["lines"], rec["impl"]) if l.startswith("ftab ")]
@@ -134,12 +170,28 @@ def run(rep, tier, seed):
         sig = [rng.randrange(c["n_consts"]) for _ in range(nv)]
         lo, hi = fol.rand_bounds(rng, 0.3)
         c["op_fact"] = (sig, lo, hi)
+    # downward as the FIRST call on a connective whose world default says something (AXIOM / CLOSED), and facts arriving
+    # between upward and downward: every operand pattern with identical variable tuples (the join-free path) and a sample of
+    # the others
+    homog = [p for p in two if p[0] == p[1]]
+    k0 = len(cases)
+    for j, pat in enumerate(homog * 4 + rng0.sample([p for p in two if p[0] != p[1]], 24)):
+        rng = random.Random(sub_seed(seed, "c09df", j))
+        c = gen_case(rng, pat, rng.choice(["and", "or", "implies"]))
+        c["kb"]["nodes"][0]["world"] = "axiom" if j % 2 == 0 else "closed"
+        c["variant"] = "downfirst" if (j // 2) % 2 == 0 else "late"
+        if c["variant"] == "late":
+            # the facts that mention the last constant arrive late
+            last = c["n_consts"] - 1
+            c["late"] = [f for f in c["facts"] if last in f[1]]
+            c["facts"] = [f for f in c["facts"] if last not in f[1]]
+        cases.append(c)
     recs, first_dis = streams.run_fol_stream(rep, "fol-join", cases, {"tables", "reported"}, fn="run_c09")
     njs = 0
     for r in recs:
         if "crash" in r:
             continue
-        nj = natural_join(r["prog"], r["meta"])
+        nj = natural_join(dict(r["prog"], facts=list(r["prog"]["facts"]) + list(r["prog"].get("late", []))), r["meta"])
         njs += len(nj)
         pat = [tuple(v[1]) for v in r["prog"]["kb"]["nodes"][0]["ops"]]
         rep.count_case(streams.canon(r["prog"]), len(nj) >= 2 and len(set(pat)) > 1)
@@ -162,6 +214,8 @@ def replay(obj):
     case = streams.fix_prog(obj["replay"]["program"])
     case["facts"] = [tuple(f) for f in case["facts"]]
     case["op_fact"] = tuple(case["op_fact"]) if case.get("op_fact") else None
+    if case.get("late"):
+        case["late"] = [tuple(f) for f in case["late"]]
     rec = engine.run_cases("fol", "run_c09", [case], jobs=1)[0]
     rec["prog"] = case
     bad = oracle(rec)
